@@ -284,10 +284,17 @@ pub fn build(m: &WDwarf) -> Built {
         let mut fids = Vec::new();
         let lp = match &u.files {
             Some(files) => {
-                let mut lp = w::LineProgram::new(enc, gimli::LineEncoding::default(), w::LineString::String(b"/wd".to_vec()), None, w::LineString::String(files.first().cloned().unwrap_or_else(|| b"main.c".to_vec())), None);
+                // DWARF 5 programs may keep directory and file names in .debug_str or .debug_line_str
+                let kind = if u.version >= 5 { u.entries.len() % 3 } else { 0 };
+                let mut mk = |b: Vec<u8>| match kind {
+                    1 => w::LineString::StringRef(dwarf.strings.add(b)),
+                    2 => w::LineString::LineStringRef(dwarf.line_strings.add(b)),
+                    _ => w::LineString::String(b),
+                };
+                let mut lp = w::LineProgram::new(enc, gimli::LineEncoding::default(), mk(b"/wd".to_vec()), None, mk(files.first().cloned().unwrap_or_else(|| b"main.c".to_vec())), None);
                 let d = lp.default_directory();
                 for f in files {
-                    fids.push(lp.add_file(w::LineString::String(f.clone()), d, None));
+                    fids.push(lp.add_file(mk(f.clone()), d, None));
                 }
                 lp
             }
